@@ -178,8 +178,13 @@ def results_close(a, b, rtol=1e-9, atol=1e-12, tables=None, index_map=None, mask
             if not np.array_equal(nan_a, nan_b):
                 diffs.append("%s.%s:nanpattern" % (t, c))
                 continue
-            ok = np.isclose(va[~nan_a], vb[~nan_b], rtol=rtol,
-                            atol=_atol_for(c, atol) if mask_zero_flow else atol)
+            col_atol = atol
+            if mask_zero_flow:
+                # grouped sums are cumsum differences over the whole table: absolute error ~ eps * column max
+                fin = np.concatenate([np.abs(da[c].values.astype(np.float64)), np.abs(db[c].values.astype(np.float64))])
+                fin = fin[np.isfinite(fin)]
+                col_atol = max(_atol_for(c, atol), 1e-12 * (fin.max() if len(fin) else 0.0))
+            ok = np.isclose(va[~nan_a], vb[~nan_b], rtol=rtol, atol=col_atol)
             if not np.all(ok):
                 diffs.append("%s.%s" % (t, c))
     return diffs
